@@ -29,7 +29,7 @@ WORKERS = {"quick": 6, "thorough": 16}
 MIN_NONTRIVIAL = {"quick": 200, "thorough": 1500}
 REQUIRED_FUNCTIONS = ["program.py:BlackbirdProgram.serialize", "listener.py:RegRefTransform.__init__", "listener.py:BlackbirdListener.exitStatement", "program.py:_format_value"]
 FUNCTIONS = REQUIRED_FUNCTIONS
-REQUIRED_TAGS = ["param-multi", "regref-multi", "include>=3-modes", "symbolic-include-argument"]
+REQUIRED_TAGS = ["param-multi", "regref-multi", "include>=3-modes", "symbolic-include-argument", "regref-multi-in-included-program"]
 ASSUMPTIONS = ["the documented freedom (order in which a register transform lists its registers) is canonicalised: sorted register set + function values fed in the listed order"]
 
 
@@ -50,8 +50,10 @@ def make_script(rng, g):
     c = rng.random()
     if c < 0.25:
         # include tree
-        files, main_path, info = c07.build(rng, g, symbolic_args=rng.random() < 0.4)
-        return ("tree", files, main_path, ({"include>=3-modes"} if any(s[2] >= 3 for s in info["subs"]) else {"include"}) | (info["tags"] & {"symbolic-include-argument"}))
+        rr = rng.random() < 0.4
+        files, main_path, info = c07.build(rng, g, symbolic_args=rng.random() < 0.4, regref_args=rr)
+        return ("tree", files, main_path, ({"include>=3-modes"} if any(s[2] >= 3 for s in info["subs"]) else {"include"}) | (info["tags"] & {"symbolic-include-argument"})
+                | ({"regref-multi-in-included-program"} if rr else set()))
     hostile = ["r", "rr", "r1", "a", "a1", "alpha", "al", "e", "E", "I", "S", "N", "p0", "p01", "phi", "phi2", "ph", "x", "xx", "x_1", "theta", "theta1"]
     if rng.random() < 0.3:
         # a name next to the same name with a suffix
